@@ -47,21 +47,42 @@ theorem hasLsn_deliverTo (id k did : Nat) (ls : List Lsn) (h : HasLsn id k ls) :
     split
     · split
       · exact ⟨l, by simp [hl], h1, h2⟩
+      · split
+        · exact ⟨l, by simp [hl], h1, h2⟩
+        · rcases hl with rfl | hl
+          · exact ⟨_, List.mem_cons_self .., h1, h2⟩
+          · exact ⟨l, List.mem_cons_of_mem _ hl, h1, h2⟩
+    · rcases hl with rfl | hl
+      · exact ⟨_, List.mem_cons_self .., h1, h2⟩
+      · obtain ⟨l', hl', h1', h2'⟩ := ih ⟨l, hl, h1, h2⟩
+        exact ⟨l', List.mem_cons_of_mem _ hl', h1', h2'⟩
+
+theorem hasLsn_endTo (id k eid : Nat) (ls : List Lsn) (h : HasLsn id k ls) : HasLsn id k (endTo eid ls) := by
+  induction ls with
+  | nil => obtain ⟨l, hl, _⟩ := h; cases hl
+  | cons a as ih =>
+    obtain ⟨l, hl, h1, h2⟩ := h
+    simp only [endTo]
+    simp only [List.mem_cons] at hl
+    split
+    · split
       · rcases hl with rfl | hl
         · exact ⟨_, List.mem_cons_self .., h1, h2⟩
         · exact ⟨l, List.mem_cons_of_mem _ hl, h1, h2⟩
+      · exact ⟨l, by simp [hl], h1, h2⟩
     · rcases hl with rfl | hl
       · exact ⟨_, List.mem_cons_self .., h1, h2⟩
       · obtain ⟨l', hl', h1', h2'⟩ := ih ⟨l, hl, h1, h2⟩
         exact ⟨l', List.mem_cons_of_mem _ hl', h1', h2'⟩
 
 theorem hasLsn_step (id k : Nat) (s : Svc) (e : Ev) (h : HasLsn id k s.lsns) : HasLsn id k (step s e).lsns := by
-  rcases step_lsns_cases s e with h1 | ⟨n, c, h1⟩ | ⟨x, h1⟩ | ⟨rid, _, h1⟩ | ⟨did, _, h1⟩
+  rcases step_lsns_cases s e with h1 | ⟨n, c, h1⟩ | ⟨x, h1⟩ | ⟨rid, _, h1⟩ | ⟨did, _, h1⟩ | ⟨eid, h1⟩
   · rw [h1]; exact h
   · rw [h1]; exact hasLsn_notify id k n c _ h
   · rw [h1]; obtain ⟨l, hl, h2⟩ := h; exact ⟨l, by simp [hl], h2⟩
   · rw [h1]; exact hasLsn_removeFrom id k rid _ h
   · rw [h1]; exact hasLsn_deliverTo id k did _ h
+  · rw [h1]; exact hasLsn_endTo id k eid _ h
 
 theorem hasLsn_run (id k : Nat) (s : Svc) (evs : List Ev) (h : HasLsn id k s.lsns) : HasLsn id k (run s evs).lsns := by
   induction evs generalizing s with
